@@ -59,6 +59,11 @@ CHECKS = {
    text="ok_only_if (claims only if the token decrypts under the configured key, the inner HS256 signature verifies when a signing key is configured, issuer rdpgw, unexpired), mode_separation (both directions), subject, expired_refused, status_map (405/400/403/200, no claims unless 200) in Props/C15.lean. Tie: tokens minted in both modes, every single-character substitution of each of the five segments, other keys/algorithms/issuers, expiry around the leeway, plain JWS, cross-mode tokens and junk are dissected independently (RFC 7518 §5.2 implemented with the standard library) and the real UserInfo verdict and subject compared with UserToken.verify; web.TokenInfo compared with tokenInfo; confidentiality of the user name is a test.",
    design="6/C15",
    note="AES-CBC/HMAC are assumed ideal; JWE parsing is go-jose's (stricter outcomes on exotic spellings are counted, safe side). The unused second JWE segment is ignored by the library for alg=dir: a token that decodes to the same authenticated object is the same token."),
+ "C14": dict(
+   technique="Lean 4 invariant + soundness/completeness theorems over histories of the NTLM session machine (induction over call lists) + differential correspondence of the real cmd/auth/ntlm verifier with messages from the go-ntlm client",
+   text="sound (Authenticated u at any point of any history ⇒ same-session context with a challenge issued earlier and still current, non-empty configured password, proof made from (u up to case, configured password, that challenge)), complete, challenge_single_use, challenge_origin, unknown_or_empty_password, wrong_password, no_negotiate, other_challenge, cross_session_replay, undecodable; legacy_impersonation proves the pinned verifier violated the property (defect D24, found by this check, repaired by a fix: commit). Tie: histories of ≤ 12 calls over several session ids (negotiate, authenticate for any earlier challenge, forged user-name fields, malformed/garbage/empty) run against the real NTLMAuth.Authenticate and compared call by call with Ntlm.run.",
+   design="6/C14",
+   note="NTLMv2 itself (go-ntlm) is assumed sound: a proof verifies iff made from the upper-cased user name, the password and the challenge. Cache expiry (1 min) is not modelled. cmd/auth's gRPC wrapper cannot be built here (no PAM headers); the package is exercised in-process."),
 }
 
 def entry(pid, c):
